@@ -755,6 +755,9 @@ func (ps *PathSum) binop(f *psFrame, x *ssa.BinOp) string {
 			t = "true"
 		case isConstTerm(a) && isConstTerm(b):
 			t = "false"
+		case strings.HasPrefix(a, "fresh") || strings.HasPrefix(b, "fresh"):
+			// a node created on this path is distinct from every other node
+			t = "false"
 		default:
 			if a > b && !isConstTerm(b) {
 				a, b = b, a
